@@ -752,6 +752,7 @@ class ZoneAnalysis:
         # discharge
         for s in zf.sites:
             self._discharge(zf, s)
+        self._specialise_direct_calls(zf)
         self._lift_closure_sites(zf)
 
     def _closure_term(self, zf, czf, caps, t, left):
@@ -772,6 +773,82 @@ class ZoneAnalysis:
         if sy.startswith('N:'):
             return t
         return None
+
+    def _specialise_direct_calls(self, zf):
+        """a local closure that this body *calls itself* (`let field = |i| &buf[i * W..(i + 1) * W]; field(0)?; field(1)?`): each call site is
+        analysed with the literal arguments it passes; what remains unproven there becomes a site of this body at that call."""
+        body, fd = zf.body, zf.fd
+        CALLS = ('std::ops::Fn::call', 'std::ops::FnMut::call_mut', 'std::ops::FnOnce::call_once')
+        by_closure = {}
+        for bi, t in body.calls():
+            if (t.get('callee') or '') not in CALLS or len(t['args']) != 2 or t['args'][0]['k'] not in ('copy', 'move'):
+                continue
+            ci = fd._closure_info(fd.resolve_place(t['args'][0]['pl'])[0]) or fd._closure_info(t['args'][0]['pl']['l'])
+            if ci is None or ci[0] not in self.prog.bodies:
+                continue
+            by_closure.setdefault(ci[0], []).append((bi, t, ci[1]))
+        for cpath, calls in by_closure.items():
+            cbody = self.prog.bodies[cpath]
+            czf = self.zf(cpath)
+            self.analyse_sites(czf)
+            if not any(cs.status == 'unknown' and cs.need for cs in czf.sites) and not any(cs.status == 'unknown' and cs.kind == 'overflow' for cs in czf.sites):
+                continue
+            # is the closure used in any other way (handed to an adaptor, stored)? then the generic analysis stands
+            other_use = False
+            for bi, t in body.calls():
+                if (t.get('callee') or '') in CALLS:
+                    continue
+                for a in t['args']:
+                    if a['k'] in ('copy', 'move'):
+                        c2 = fd._closure_info(a['pl']['l']) if not a['pl'].get('p') else None
+                        if c2 and c2[0] == cpath:
+                            other_use = True
+            if other_use:
+                continue
+            all_ok = True
+            for bi, t, caps in calls:
+                ov = {}
+                a1 = t['args'][1]
+                ops = []
+                if a1['k'] in ('copy', 'move') and not a1['pl'].get('p'):
+                    d = zf.single_def(a1['pl']['l'])
+                    if d and d[0] == 'assign' and d[2]['rv']['k'] == 'agg' and d[2]['rv'].get('ak') == 'tuple':
+                        ops = d[2]['rv']['ops']
+                for k, o in enumerate(ops):
+                    tt = zf.term_op(o)
+                    if tt is not None and tt[0] is None:
+                        ov[2 + k] = tt
+                if not ov:
+                    all_ok = False
+                    continue
+                spec = ZoneFn(self, cbody, overrides=ov)
+                self.analyse_sites(spec)
+                for cs in spec.sites:
+                    if cs.status.startswith('safe'):
+                        continue
+                    need = []
+                    for (a, b) in (cs.need or []):
+                        a2, b2 = self._closure_term(zf, spec, caps, a, True), self._closure_term(zf, spec, caps, b, False)
+                        if a2 is None or b2 is None:
+                            need = None
+                            break
+                        need.append((a2, b2))
+                    if not need:
+                        all_ok = False
+                        continue
+                    s = Site(body.path, bi, 'callee', '%s(%s)<-%s' % (cpath.split('::')[-1], ','.join(str(v[1]) for v in ov.values()), cs.key()), need, t['line'], t.get('span'))
+                    s.origin = cs
+                    if any(x.kind == s.kind and x.desc == s.desc for x in zf.sites):
+                        continue
+                    zf.sites.append(s)
+                    self._discharge(zf, s)
+                    if not s.status.startswith('safe') and s.status != 'pre':
+                        all_ok = False
+            if all_ok:
+                for cs in czf.sites:
+                    if cs.status == 'unknown':
+                        cs.status = 'pre'
+                        cs.pre = list(cs.need or [])
 
     def _lift_closure_sites(self, zf):
         """an unproven site inside a closure that this body creates and hands to an iterator adaptor (or calls): the requirement, with the
